@@ -238,6 +238,10 @@ class Rewriter:
         t = s('Rn.isintegral', r'\bif\s+__auto_type\b', 'if', t)
         t = s('Rn.cmath', r'\bstd::(llabs|round|sqrt|fabs|ceil|floor|nearbyint|pow|log10|log2|exp2|log|exp|trunc|lround|ilogb|sin|cos|acos|atan2|isnan|move|swap)\b', r'\1', t)
         t = s('Rn.sizet', r'\bstd::size_t\b', 'size_t', t)
+        t = s('Rn.optional', r'\.\s*has_value\s*\(\s*\)', '.has', t)
+        t = s('Rn.optional', r'\.\s*value\s*\(\s*\)', '.val', t)
+        t = s('Rn.optional', r'\bstd::nullopt\b', 'VF_NULLOPT', t)
+        t = s('Rn.optional', r'\bstd::optional<\s*size_t\s*>', 'VF_OptSize', t)
         return t
 
     def tmpl_types(self, t, opts):
@@ -424,6 +428,7 @@ def extract_struct(src, name, cppdefs=()):
     body = re.sub(r'^[ \t]*#.*$', '', body, flags=re.M)
     # remove nested brace blocks together with their heads (methods); `= {}` initialisers first
     body = re.sub(r'=\s*\{\s*\}', '', body)
+    body = re.sub(r'\{\s*\}', ' ', body)
     while True:
         k = body.find('{')
         if k < 0:
@@ -457,6 +462,8 @@ def extract_struct(src, name, cppdefs=()):
             else:
                 st = 'VF_Vec ' + mc.group(1)          # R12/R14: container -> (data,size) pair
         st = re.sub(r'^ZCallback(64|D)\b', r'VF_ZCallback\1', st)
+        st = re.sub(r'^std::optional<\s*size_t\s*>\s+(\w+)\s*(?:\{\s*\})?$', r'VF_OptSize \1', st)
+        st = re.sub(r'^std::vector<\s*Group\s*>\s+(\w+)$', r'VF_Vec \1', st)
         # field names: identifiers before , or end, after stripping pointer stars
         for piece in st.split(','):
             mm = re.search(r'(\w+)\s*(?:\[[^\]]*\])?\s*$', piece.strip())
